@@ -2,6 +2,50 @@
    when the model was last validated against the code). Compared with the regenerated VGen.SkelC17 in VProps/PinC17.lean. -/
 namespace VPins.C17
 
+def eventV2__CheckFields : List String := [
+  "func func(input PDU) error",
+  "if input.AuthEventIDs() == nil || input.PrevEventIDs() == nil {",
+  "return errors.New(\"gomatrixserverlib: auth events and prev events must not be nil\")",
+  "}",
+  "if l := len(input.JSON()); l > maxEventLength {",
+  "return EventValidationError{Code: EventValidationTooLarge, Message: fmt.Sprintf(\"gomatrixserverlib: event is too long, length %d bytes > maximum %d bytes\", l, maxEventLength)}",
+  "}",
+  "if l := utf8.RuneCountInString(input.Type()); l > maxIDLength {",
+  "return EventValidationError{Code: EventValidationTooLarge, Message: fmt.Sprintf(\"gomatrixserverlib: event type is too long, length %d bytes > maximum %d bytes\", l, maxIDLength)}",
+  "}",
+  "if input.StateKey() != nil {",
+  "if l := utf8.RuneCountInString(*input.StateKey()); l > maxIDLength {",
+  "return EventValidationError{Code: EventValidationTooLarge, Message: fmt.Sprintf(\"gomatrixserverlib: state key is too long, length %d bytes > maximum %d bytes\", l, maxIDLength)}",
+  "}",
+  "}",
+  "if l := utf8.RuneCountInString(string(input.SenderID())); l > maxIDLength {",
+  "return EventValidationError{Code: EventValidationTooLarge, Message: fmt.Sprintf(\"gomatrixserverlib: sender is too long, length %d > maximum %d\", l, maxIDLength)}",
+  "}",
+  "switch input.Version() {",
+  "case RoomVersionPseudoIDs:",
+  "default:",
+  "if _, err := domainFromID(string(input.SenderID())); err != nil {",
+  "return err",
+  "}",
+  "if id := string(input.SenderID()); id[0] != '@' {",
+  "return checkID(id, \"user\", '@')",
+  "}",
+  "}",
+  "_, persistable := lenientByteLimitRoomVersions[input.Version()]",
+  "if l := len(input.Type()); l > maxIDLength {",
+  "return EventValidationError{Code: EventValidationTooLarge, Message: fmt.Sprintf(\"gomatrixserverlib: event type is too long, length %d bytes > maximum %d bytes\", l, maxIDLength), Persistable: persistable}",
+  "}",
+  "if input.StateKey() != nil {",
+  "if l := len(*input.StateKey()); l > maxIDLength {",
+  "return EventValidationError{Code: EventValidationTooLarge, Message: fmt.Sprintf(\"gomatrixserverlib: state key is too long, length %d bytes > maximum %d bytes\", l, maxIDLength), Persistable: persistable}",
+  "}",
+  "}",
+  "if l := len(input.SenderID()); l > maxIDLength {",
+  "return EventValidationError{Code: EventValidationTooLarge, Message: fmt.Sprintf(\"gomatrixserverlib: user ID is too long, length %d bytes > maximum %d bytes\", l, maxIDLength), Persistable: true}",
+  "}",
+  "return nil"
+]
+
 def event_EventValidationError_Error : List String := [
   "func func() string",
   "return e.Message"
@@ -52,6 +96,303 @@ def event__checkRoomIDField : List String := [
   "return fmt.Errorf(\"gomatrixserverlib: invalid room ID %q: %w\", id, err)",
   "}",
   "return nil"
+]
+
+def event_builder_EventBuilder_AddAuthEvents : List String := [
+  "func func(provider AuthEventProvider) error",
+  "eventsNeeded, err := StateNeededForProtoEvent(&ProtoEvent{Type: eb.Type, StateKey: eb.StateKey, Content: eb.Content, SenderID: eb.SenderID, Version: eb.version})",
+  "if err != nil {",
+  "return err",
+  "}",
+  "refs, err := eventsNeeded.AuthEventReferences(provider)",
+  "if err != nil {",
+  "return err",
+  "}",
+  "if eb.version.DomainlessRoomIDs() && eb.RoomID != \"\" {",
+  "createEventID := \"$\" + eb.RoomID[1:]",
+  "ids := make([]string, 0, len(refs))",
+  "for _, id := range refs {",
+  "if id == createEventID {",
+  "continue",
+  "}",
+  "ids = append(ids, id)",
+  "}",
+  "eb.AuthEvents = ids",
+  "return nil",
+  "}",
+  "eb.AuthEvents = refs",
+  "return nil"
+]
+
+def event_builder_EventBuilder_Build : List String := [
+  "func func(now time.Time, origin spec.ServerName, keyID KeyID, privateKey ed25519.PrivateKey) (result PDU, err error)",
+  "if eb.version == nil {",
+  "return nil, fmt.Errorf(\"EventBuilder.Build: unknown version, did you create this via NewEventBuilder?\")",
+  "}",
+  "eventFormat := eb.version.EventFormat()",
+  "eventIDFormat := eb.version.EventIDFormat()",
+  "var eventStruct struct { EventBuilder EventID string `json:\"event_id\"` OriginServerTS spec.Timestamp `json:\"origin_server_ts\"` Origin spec.ServerName `json:\"origin\"` PrevState *[ // This key is either absent or an empty list. // If it is absent then the pointer is nil and omitempty removes it. // Otherwise it points to an empty list and omitempty keeps it. ]eventReference `json:\"prev_state,omitempty\"` }",
+  "eventStruct.EventBuilder = *eb",
+  "if eventIDFormat == EventIDFormatV1 {",
+  "eventStruct.EventID = fmt.Sprintf(\"$%s:%s\", util.RandomString(16), origin)",
+  "}",
+  "if eb.version.DomainlessRoomIDs() && eb.Type == spec.MRoomCreate && eb.StateKey != nil && eb.RoomID != \"\" {",
+  "return nil, fmt.Errorf(\"EventBuilder.Build: create event must have no room ID but %s was provided\", eb.RoomID)",
+  "}",
+  "eventStruct.OriginServerTS = spec.AsTimestamp(now)",
+  "eventStruct.Origin = origin",
+  "switch eventFormat {",
+  "case EventFormatV1:",
+  "eventStruct.PrevEvents = toEventReference(eventStruct.PrevEvents)",
+  "eventStruct.AuthEvents = toEventReference(eventStruct.AuthEvents)",
+  "case EventFormatV2:",
+  "switch prevEvents := eventStruct.PrevEvents.(type) { case []string: eventStruct.PrevEvents = prevEvents case nil: eventStruct.PrevEvents = []string{} }",
+  "switch authEvents := eventStruct.AuthEvents.(type) { case []string: eventStruct.AuthEvents = authEvents case nil: eventStruct.AuthEvents = []string{} }",
+  "}",
+  "if eventStruct.StateKey != nil {",
+  "eventStruct.PrevState = &emptyEventReferenceList",
+  "}",
+  "var eventJSON []byte",
+  "if eventJSON, err = json.Marshal(&eventStruct); err != nil {",
+  "return",
+  "}",
+  "if eventFormat == EventFormatV2 {",
+  "if eventJSON, err = sjson.DeleteBytes(eventJSON, \"event_id\"); err != nil {",
+  "return",
+  "}",
+  "}",
+  "if eventJSON, err = addContentHashesToEvent(eventJSON); err != nil {",
+  "return",
+  "}",
+  "if eventJSON, err = signEvent(string(origin), keyID, privateKey, eventJSON, eb.version.Version()); err != nil {",
+  "return",
+  "}",
+  "if eventJSON, err = EnforcedCanonicalJSON(eventJSON, eb.version.Version()); err != nil {",
+  "return",
+  "}",
+  "res, err := eb.version.NewEventFromTrustedJSON(eventJSON, false)",
+  "if err != nil {",
+  "return nil, err",
+  "}",
+  "err = CheckFields(res)",
+  "return res, err"
+]
+
+def event_builder_EventBuilder_SetContent : List String := [
+  "func func(content interface{}) (err error)",
+  "eb.Content, err = json.Marshal(content)",
+  "return"
+]
+
+def event_builder_EventBuilder_SetUnsigned : List String := [
+  "func func(unsigned interface{}) (err error)",
+  "eb.Unsigned, err = json.Marshal(unsigned)",
+  "return"
+]
+
+def event_builder__eventHashFromEventID : List String := [
+  "func func(eventID string) spec.Base64Bytes",
+  "var sha spec.Base64Bytes",
+  "if err := sha.Decode(eventID[1:]); err != nil {",
+  "return sha",
+  "}",
+  "return sha"
+]
+
+def event_builder__toEventReference : List String := [
+  "func func(data any) []eventReference",
+  "switch evs := data.(type) { case nil: return []eventReference{} case []string: newEvents := make([]eventReference, 0, len(evs)) for _, eventID := range evs { newEvents = append(newEvents, eventReference{EventID: eventID, EventSHA256: eventHashFromEventID(eventID)}) } return newEvents case []eventReference: return evs case []interface{}: evRefs := make([]eventReference, 0, len(evs)) for _, b := range evs { evID, ok := b.(string) if ok { evRefs = append(evRefs, eventReference{EventID: evID, EventSHA256: eventHashFromEventID(evID)}) continue } ev, ok := b.([]interface{}) if ok { evRefs = append(evRefs, eventReference{EventID: ev[0].(string), EventSHA256: eventHashFromEventID(ev[0].(string))}) continue } } return evRefs default: return []eventReference{} }"
+]
+
+def eventversion_RoomVersionImpl_CheckCanonicalJSON : List String := [
+  "func func(eventJSON []byte) error",
+  "return v.canonicalJSONCheck(eventJSON)"
+]
+
+def eventversion_RoomVersionImpl_CheckCreateEvent : List String := [
+  "func func(event PDU, sender spec.UserID, knownRoomVersion KnownRoomVersionFunc) error",
+  "return v.checkCreateEvent(event, sender, knownRoomVersion)"
+]
+
+def eventversion_RoomVersionImpl_CheckKnockingAllowed : List String := [
+  "func func(roomVer, sender, target, joinRule, prevMembership string) error",
+  "return v.checkKnockingAllowedFunc(roomVer, sender, target, joinRule, prevMembership)"
+]
+
+def eventversion_RoomVersionImpl_CheckPowerLevelEvent : List String := [
+  "func func(sender string, createEvent PDU, oldPowerLevels, newPowerLevels PowerLevelContent) error",
+  "return v.checkPowerLevelEvent(sender, createEvent, oldPowerLevels, newPowerLevels)"
+]
+
+def eventversion_RoomVersionImpl_CheckRestrictedJoin : List String := [
+  "func func(ctx context.Context, localServerName spec.ServerName, roomQuerier RestrictedRoomJoinQuerier, roomID spec.RoomID, senderID spec.SenderID) (string, error)",
+  "return v.checkRestrictedJoin(ctx, localServerName, roomQuerier, roomID, senderID, v.privilegedCreators)"
+]
+
+def eventversion_RoomVersionImpl_CheckRestrictedJoinsAllowed : List String := [
+  "func func() error",
+  "return v.checkRestrictedJoinAllowedFunc()"
+]
+
+def eventversion_RoomVersionImpl_DomainlessRoomIDs : List String := [
+  "func func() bool",
+  "return v.domainlessRoomID"
+]
+
+def eventversion_RoomVersionImpl_EventFormat : List String := [
+  "func func() EventFormat",
+  "return v.eventFormat"
+]
+
+def eventversion_RoomVersionImpl_EventIDFormat : List String := [
+  "func func() EventIDFormat",
+  "return v.eventIDFormat"
+]
+
+def eventversion_RoomVersionImpl_NewEventBuilder : List String := [
+  "func func() *EventBuilder",
+  "return &EventBuilder{version: v}"
+]
+
+def eventversion_RoomVersionImpl_NewEventBuilderFromProtoEvent : List String := [
+  "func func(pe *ProtoEvent) *EventBuilder",
+  "eb := v.NewEventBuilder()",
+  "eb.AuthEvents = pe.AuthEvents",
+  "eb.Content = pe.Content",
+  "eb.Depth = pe.Depth",
+  "eb.PrevEvents = pe.PrevEvents",
+  "eb.Redacts = pe.Redacts",
+  "eb.RoomID = pe.RoomID",
+  "eb.SenderID = pe.SenderID",
+  "eb.Signature = pe.Signature",
+  "eb.StateKey = pe.StateKey",
+  "eb.Type = pe.Type",
+  "eb.Unsigned = pe.Unsigned",
+  "return eb"
+]
+
+def eventversion_RoomVersionImpl_NewEventFromTrustedJSON : List String := [
+  "func func(eventJSON []byte, redacted bool) (result PDU, err error)",
+  "return v.newEventFromTrustedJSONFunc(eventJSON, redacted, v)"
+]
+
+def eventversion_RoomVersionImpl_NewEventFromTrustedJSONWithEventID : List String := [
+  "func func(eventID string, eventJSON []byte, redacted bool) (result PDU, err error)",
+  "return v.newEventFromTrustedJSONWithEventIDFunc(eventID, eventJSON, redacted, v)"
+]
+
+def eventversion_RoomVersionImpl_NewEventFromUntrustedJSON : List String := [
+  "func func(eventJSON []byte) (result PDU, err error)",
+  "return v.newEventFromUntrustedJSONFunc(eventJSON, v)"
+]
+
+def eventversion_RoomVersionImpl_ParsePowerLevels : List String := [
+  "func func(contentBytes []byte, c *PowerLevelContent) error",
+  "return v.parsePowerLevelsFunc(contentBytes, c)"
+]
+
+def eventversion_RoomVersionImpl_PrivilegedCreators : List String := [
+  "func func() bool",
+  "return v.privilegedCreators"
+]
+
+def eventversion_RoomVersionImpl_RedactEventJSON : List String := [
+  "func func(eventJSON []byte) ([]byte, error)",
+  "return v.redactionAlgorithm(eventJSON)"
+]
+
+def eventversion_RoomVersionImpl_RestrictedJoinServername : List String := [
+  "func func(content []byte) (spec.ServerName, error)",
+  "return v.restrictedJoinServernameFunc(content)"
+]
+
+def eventversion_RoomVersionImpl_SignatureValidityCheck : List String := [
+  "func func(atTS, validUntilTS spec.Timestamp) bool",
+  "return v.signatureValidityCheckFunc(atTS, validUntilTS)"
+]
+
+def eventversion_RoomVersionImpl_Stable : List String := [
+  "func func() bool",
+  "return v.stable"
+]
+
+def eventversion_RoomVersionImpl_StateResAlgorithm : List String := [
+  "func func() StateResAlgorithm",
+  "return v.stateResAlgorithm"
+]
+
+def eventversion_RoomVersionImpl_Version : List String := [
+  "func func() RoomVersion",
+  "return v.ver"
+]
+
+def eventversion_UnsupportedRoomVersionError_Error : List String := [
+  "func func() string",
+  "return fmt.Sprintf(\"gomatrixserverlib: unsupported room version '%s'\", e.Version)"
+]
+
+def eventversion__GetRoomVersion : List String := [
+  "func func(verStr RoomVersion) (impl IRoomVersion, err error)",
+  "v, ok := roomVersionMeta[verStr]",
+  "if !ok {",
+  "return impl, UnsupportedRoomVersionError{Version: verStr}",
+  "}",
+  "return v, nil"
+]
+
+def eventversion__KnownRoomVersion : List String := [
+  "func func(verStr RoomVersion) bool",
+  "_, ok := roomVersionMeta[verStr]",
+  "return ok"
+]
+
+def eventversion__MustGetRoomVersion : List String := [
+  "func func(verStr RoomVersion) IRoomVersion",
+  "impl, err := GetRoomVersion(verStr)",
+  "if err != nil {",
+  "panic(fmt.Sprintf(\"MustGetRoomVersion: %s\", verStr))",
+  "}",
+  "return impl"
+]
+
+def eventversion__NewEventFromHeaderedJSON : List String := [
+  "func func(headeredEventJSON []byte, redacted bool) (PDU, error)",
+  "eventID := gjson.GetBytes(headeredEventJSON, \"_event_id\").String()",
+  "roomVer := RoomVersion(gjson.GetBytes(headeredEventJSON, \"_room_version\").String())",
+  "verImpl, err := GetRoomVersion(roomVer)",
+  "if err != nil {",
+  "return nil, err",
+  "}",
+  "headeredEventJSON, _ = sjson.DeleteBytes(headeredEventJSON, \"_event_id\")",
+  "headeredEventJSON, _ = sjson.DeleteBytes(headeredEventJSON, \"_room_version\")",
+  "return verImpl.NewEventFromTrustedJSONWithEventID(eventID, headeredEventJSON, redacted)"
+]
+
+def eventversion__RoomVersions : List String := [
+  "func func() map[RoomVersion]IRoomVersion",
+  "return roomVersionMeta"
+]
+
+def eventversion__SetRoomVersion : List String := [
+  "func func(ver IRoomVersion)",
+  "roomVersionMeta[ver.Version()] = ver"
+]
+
+def eventversion__StableRoomVersion : List String := [
+  "func func(verStr RoomVersion) bool",
+  "verImpl, ok := roomVersionMeta[verStr]",
+  "return ok && verImpl.Stable()"
+]
+
+def eventversion__StableRoomVersions : List String := [
+  "func func() map[RoomVersion]IRoomVersion",
+  "versions := make(map[RoomVersion]IRoomVersion)",
+  "for id, version := range RoomVersions() {",
+  "if version.Stable() {",
+  "versions[id] = version",
+  "}",
+  "}",
+  "return versions"
 ]
 
 def spec_base64_Base64Bytes_Decode : List String := [
@@ -162,6 +503,57 @@ def spec_roomid__parseAndValidateRoomID : List String := [
   "}",
   "roomID := &RoomID{raw: id, opaqueID: opaqueID, domain: domain, isDomainless: false}",
   "return roomID, nil"
+]
+
+def spec_senderid_SenderID_IsPseudoID : List String := [
+  "func func() bool",
+  "return !s.IsUserID()"
+]
+
+def spec_senderid_SenderID_IsUserID : List String := [
+  "func func() bool",
+  "return len(s) > 0 && s[0] == '@'"
+]
+
+def spec_senderid_SenderID_RawBytes : List String := [
+  "func func() (res Base64Bytes, err error)",
+  "err = res.Decode(string(s))",
+  "if err != nil {",
+  "return nil, err",
+  "}",
+  "return res, nil"
+]
+
+def spec_senderid_SenderID_ToPseudoID : List String := [
+  "func func() *ed25519.PublicKey",
+  "if s.IsPseudoID() {",
+  "decoded, err := s.RawBytes()",
+  "if err != nil {",
+  "return nil",
+  "}",
+  "key := ed25519.PublicKey([]byte(decoded))",
+  "return &key",
+  "}",
+  "return nil"
+]
+
+def spec_senderid_SenderID_ToUserID : List String := [
+  "func func() *UserID",
+  "if s.IsUserID() {",
+  "uID, _ := NewUserID(string(s), true)",
+  "return uID",
+  "}",
+  "return nil"
+]
+
+def spec_senderid__SenderIDFromPseudoIDKey : List String := [
+  "func func(key ed25519.PrivateKey) SenderID",
+  "return SenderID(Base64Bytes(key.Public().(ed25519.PublicKey)).Encode())"
+]
+
+def spec_senderid__SenderIDFromUserID : List String := [
+  "func func(user UserID) SenderID",
+  "return SenderID(user.String())"
 ]
 
 def spec_servername__ParseAndValidateServerName : List String := [
@@ -296,6 +688,6 @@ def spec_userid__parseAndValidateUserID : List String := [
   "return userID, nil"
 ]
 
-def functions : List String := ["event.go:EventValidationError.Error", "event.go:.SplitID", "event.go:.checkID", "event.go:.checkRoomIDField", "spec/base64.go:Base64Bytes.Decode", "spec/base64.go:Base64Bytes.Encode", "spec/base64.go:Base64Bytes.MarshalJSON", "spec/base64.go:Base64Bytes.MarshalYAML", "spec/base64.go:Base64Bytes.Scan", "spec/base64.go:Base64Bytes.UnmarshalJSON", "spec/base64.go:Base64Bytes.UnmarshalYAML", "spec/base64.go:Base64Bytes.Value", "spec/roomid.go:RoomID.Domain", "spec/roomid.go:RoomID.OpaqueID", "spec/roomid.go:RoomID.String", "spec/roomid.go:.NewRoomID", "spec/roomid.go:.parseAndValidateRoomID", "spec/servername.go:.ParseAndValidateServerName", "spec/servername.go:.isDNSNameChar", "spec/servername.go:.splitServerName", "spec/userid.go:UserID.Domain", "spec/userid.go:UserID.Local", "spec/userid.go:UserID.String", "spec/userid.go:.NewUserID", "spec/userid.go:.NewUserIDOrPanic", "spec/userid.go:.historicallyValidCharacters", "spec/userid.go:.parseAndValidateUserID"]
+def functions : List String := ["eventV2.go:.CheckFields", "event.go:EventValidationError.Error", "event.go:.SplitID", "event.go:.checkID", "event.go:.checkRoomIDField", "event_builder.go:EventBuilder.AddAuthEvents", "event_builder.go:EventBuilder.Build", "event_builder.go:EventBuilder.SetContent", "event_builder.go:EventBuilder.SetUnsigned", "event_builder.go:.eventHashFromEventID", "event_builder.go:.toEventReference", "eventversion.go:RoomVersionImpl.CheckCanonicalJSON", "eventversion.go:RoomVersionImpl.CheckCreateEvent", "eventversion.go:RoomVersionImpl.CheckKnockingAllowed", "eventversion.go:RoomVersionImpl.CheckPowerLevelEvent", "eventversion.go:RoomVersionImpl.CheckRestrictedJoin", "eventversion.go:RoomVersionImpl.CheckRestrictedJoinsAllowed", "eventversion.go:RoomVersionImpl.DomainlessRoomIDs", "eventversion.go:RoomVersionImpl.EventFormat", "eventversion.go:RoomVersionImpl.EventIDFormat", "eventversion.go:RoomVersionImpl.NewEventBuilder", "eventversion.go:RoomVersionImpl.NewEventBuilderFromProtoEvent", "eventversion.go:RoomVersionImpl.NewEventFromTrustedJSON", "eventversion.go:RoomVersionImpl.NewEventFromTrustedJSONWithEventID", "eventversion.go:RoomVersionImpl.NewEventFromUntrustedJSON", "eventversion.go:RoomVersionImpl.ParsePowerLevels", "eventversion.go:RoomVersionImpl.PrivilegedCreators", "eventversion.go:RoomVersionImpl.RedactEventJSON", "eventversion.go:RoomVersionImpl.RestrictedJoinServername", "eventversion.go:RoomVersionImpl.SignatureValidityCheck", "eventversion.go:RoomVersionImpl.Stable", "eventversion.go:RoomVersionImpl.StateResAlgorithm", "eventversion.go:RoomVersionImpl.Version", "eventversion.go:UnsupportedRoomVersionError.Error", "eventversion.go:.GetRoomVersion", "eventversion.go:.KnownRoomVersion", "eventversion.go:.MustGetRoomVersion", "eventversion.go:.NewEventFromHeaderedJSON", "eventversion.go:.RoomVersions", "eventversion.go:.SetRoomVersion", "eventversion.go:.StableRoomVersion", "eventversion.go:.StableRoomVersions", "spec/base64.go:Base64Bytes.Decode", "spec/base64.go:Base64Bytes.Encode", "spec/base64.go:Base64Bytes.MarshalJSON", "spec/base64.go:Base64Bytes.MarshalYAML", "spec/base64.go:Base64Bytes.Scan", "spec/base64.go:Base64Bytes.UnmarshalJSON", "spec/base64.go:Base64Bytes.UnmarshalYAML", "spec/base64.go:Base64Bytes.Value", "spec/roomid.go:RoomID.Domain", "spec/roomid.go:RoomID.OpaqueID", "spec/roomid.go:RoomID.String", "spec/roomid.go:.NewRoomID", "spec/roomid.go:.parseAndValidateRoomID", "spec/senderid.go:SenderID.IsPseudoID", "spec/senderid.go:SenderID.IsUserID", "spec/senderid.go:SenderID.RawBytes", "spec/senderid.go:SenderID.ToPseudoID", "spec/senderid.go:SenderID.ToUserID", "spec/senderid.go:.SenderIDFromPseudoIDKey", "spec/senderid.go:.SenderIDFromUserID", "spec/servername.go:.ParseAndValidateServerName", "spec/servername.go:.isDNSNameChar", "spec/servername.go:.splitServerName", "spec/userid.go:UserID.Domain", "spec/userid.go:UserID.Local", "spec/userid.go:UserID.String", "spec/userid.go:.NewUserID", "spec/userid.go:.NewUserIDOrPanic", "spec/userid.go:.historicallyValidCharacters", "spec/userid.go:.parseAndValidateUserID"]
 
 end VPins.C17
